@@ -1,0 +1,32 @@
+//go:build verif && !test
+
+package os
+
+import "github.com/glebziz/fs_db/internal/utils/vhook"
+
+// Write passes every content file write through the verification hooks:
+// a crash/trace point first, then the optional write fault function.
+func (f File) Write(p []byte) (n int, err error) {
+	vhook.AtID("file.write", f.File.Name())
+
+	fn, fErr, handled := vhook.WriteFault(f.File.Name(), p)
+	if handled {
+		if fn > 0 {
+			wn, wErr := f.File.Write(p[:fn])
+			if wErr != nil {
+				return wn, wErr
+			}
+		}
+
+		return fn, fErr
+	}
+
+	return f.File.Write(p)
+}
+
+// Close marks the close of a content file as a verification point.
+func (f File) Close() error {
+	vhook.AtID("file.close", f.File.Name())
+
+	return f.File.Close()
+}
